@@ -62,7 +62,7 @@ fn classify(vals: &[Val], rep: &mut Rep) {
 }
 
 /// (values, big endian, encoder: 0 = harness encoder, 1 = adlt payload_from_args)
-fn check_decode(v: &(Vec<Val>, bool, u8), rep: &mut Rep) -> Result<(), String> {
+pub fn check_decode(v: &(Vec<Val>, bool, u8), rep: &mut Rep) -> Result<(), String> {
     let (vals, be, encoder) = v;
     classify(vals, rep);
     rep.label_if(*be, "big_endian");
@@ -134,7 +134,7 @@ fn check_serde(vals: &Vec<SVal>, rep: &mut Rep) -> Result<(), String> {
 }
 
 /// (values, be, fault kind, position selector a, selector b)
-fn check_fault(v: &(Vec<Val>, bool, u8, u16, u16), rep: &mut Rep) -> Result<(), String> {
+pub fn check_fault(v: &(Vec<Val>, bool, u8, u16, u16), rep: &mut Rep) -> Result<(), String> {
     let (vals, be, kind, a, b) = v;
     classify(vals, rep);
     let full = encode_args(vals, *be);
@@ -255,6 +255,7 @@ pub fn def(tier: Tier) -> PropertyDef {
             sub("truncate_corrupt", tier.pick(100_000, 3_000_000), (vals, any::<bool>(), 0u8..3, any::<u16>(), any::<u16>()), check_fault)
                 .rates(&[("truncated", 0.2), ("typeinfo_bit_flipped", 0.2), ("length_field_corrupted", 0.1)])
                 .boxed(),
+            crate::fuzzing::fuzz_sub("args", "fuzz_args", tier.pick(5_000, 50_000)),
         ],
         workers: 16,
     }
